@@ -42,6 +42,13 @@ MIL = [0x00000000, 0x40000000, 0x7FFFFF7F, 0x80000000, 0x40000080, 0x7FFFFF80, 0
        0x4000007F, 0xC0000001]
 
 
+def tables():
+    """the translated part of the model: NumericDataEncoding._twos_complement is turned into Gallina from the current source and
+    proved equal to Model/Decode.v's twos_complement (Gen/FunOk_C04.v) on every run"""
+    import gen_fun
+    return gen_fun.check("C04", [("space_packet_parser/xtce/encodings.py", "_twos_complement", "gen_twos_complement")], "FunOk_C04")
+
+
 def gen(rng, tier):
     cases = []
     widths = list(range(1, 73))
